@@ -23,6 +23,7 @@ import (
 	"0chain.net/chaincore/transaction"
 	"0chain.net/core/encryption"
 	"0chain.net/smartcontract/minersc"
+	"0chain.net/smartcontract/partitions"
 	"github.com/0chain/common/core/currency"
 	"github.com/0chain/common/core/statecache"
 	"github.com/0chain/common/core/util"
@@ -83,6 +84,91 @@ func newVal(k string, n uint64) util.MPTSerializable {
 
 func cacheableKey(k string) bool { return strings.HasSuffix(k, "0") || strings.HasSuffix(k, "2") }
 
+// ---------------------------------------------------------------- a partitions list kept by the scripted contract
+
+var partName = scriptAddr + ":parts"
+
+const (
+	partSize = 2 // small, so that packed (non-last) partitions exist after three items
+	nItems   = 6
+)
+
+type pItem struct {
+	ID string
+	V  uint64
+}
+
+func (p *pItem) GetID() string { return p.ID }
+func (p *pItem) Msgsize() int   { return 20 }
+func (p *pItem) MarshalMsg(b []byte) ([]byte, error) {
+	return append(b, []byte(fmt.Sprintf("%020d", p.V))...), nil
+}
+func (p *pItem) UnmarshalMsg(b []byte) ([]byte, error) {
+	if len(b) < 20 {
+		return nil, errors.New("short")
+	}
+	n, err := strconv.ParseUint(string(b[:20]), 10, 64)
+	p.V = n
+	return b[20:], err
+}
+
+func itemName(i uint64) string { return fmt.Sprintf("item%d", i) }
+
+// partOp: put (update in place when present, add otherwise) or remove (when present) one item, then save.
+func partOp(b cstate.StateContextI, put bool, id string, val uint64) error {
+	ps, err := partitions.CreateIfNotExists(b, partName, partSize)
+	if err != nil {
+		return err
+	}
+	exist, err := ps.Exist(b, id)
+	if err != nil {
+		return err
+	}
+	switch {
+	case put && exist:
+		err = ps.UpdateItem(b, &pItem{ID: id, V: val})
+	case put:
+		err = ps.Add(b, &pItem{ID: id, V: val})
+	case exist:
+		err = ps.Remove(b, id)
+	}
+	if err != nil {
+		return err
+	}
+	return ps.Save(b)
+}
+
+// partRead lists the items a reader with the given context sees.
+func partRead(b cstate.StateContextI) (map[uint64]uint64, error) {
+	out := map[uint64]uint64{}
+	ps, err := partitions.GetPartitions(b, partName)
+	if err == util.ErrValueNotPresent {
+		return out, nil
+	}
+	if err != nil {
+		return nil, err
+	}
+	for i := uint64(0); i < nItems; i++ {
+		var it pItem
+		if _, err := ps.Get(b, itemName(i), &it); err == nil {
+			out[i] = it.V
+		} else if !partitions.ErrItemNotFound(err) {
+			return nil, err
+		}
+	}
+	return out, nil
+}
+
+// coldCtx reads the trie itself, by-passing every cache layer.
+type coldCtx struct {
+	cstate.StateContextI
+	st util.MerklePatriciaTrieI
+}
+
+func (c coldCtx) GetTrieNode(key string, v util.MPTSerializable) error {
+	return c.st.GetNodeValue(util.Path(encryption.Hash(key)), v)
+}
+
 type scriptSC struct{}
 
 func (scriptSC) GetHandlerStats(ctx context.Context, params url.Values) (interface{}, error) {
@@ -115,6 +201,11 @@ func (scriptSC) Execute(t *transaction.Transaction, fn string, input []byte, b c
 			if _, err := b.DeleteTrieNode(scriptAddr + o.Key); err != nil && err != util.ErrValueNotPresent {
 				return "", err
 			}
+		case "pu", "pr":
+			// the REAL smartcontract/partitions list, used the way the contracts use it: load, change in place, save
+			if err := partOp(b, o.K == "pu", o.Key, o.Val); err != nil {
+				return "", err
+			}
 		}
 	}
 	switch in.Err {
@@ -135,8 +226,16 @@ const nIDs = 9 // 0 = miner SC, 1 = script SC, 2.. = clients
 var clients [nIDs]engine.Client
 var ids [nIDs]string
 
+// the trie paths the partitions list may write: its head, its partitions, its item locations
+var partPaths = map[string]bool{}
+
 func setup() {
 	engine.Setup()
+	partPaths[encryption.Hash(partName)] = true
+	for i := 0; i <= nItems; i++ {
+		partPaths[encryption.Hash(partName+encryption.Hash(":partition:"+strconv.Itoa(i)))] = true
+		partPaths[encryption.Hash(encryption.Hash(fmt.Sprintf("%s:%s", partName, itemName(uint64(i)))))] = true
+	}
 	smartcontract.ContractMap[scriptAddr] = scriptSC{}
 	ids[0] = minersc.ADDRESS
 	ids[1] = scriptAddr
@@ -192,6 +291,22 @@ func (x *world) show() string {
 			sp = append(sp, fmt.Sprintf("%d:%d", k, val))
 		}
 	}
+	// the partitions list: what a contract sees through the cache layers vs. what the trie holds
+	warm, errW := partRead(sctx)
+	cold, errC2 := partRead(coldCtx{sctx, x.w.State})
+	if errW != nil || errC2 != nil || len(warm) != len(cold) {
+		cacheMismatch++
+	}
+	for i := uint64(0); i < nItems; i++ {
+		vw, okw := warm[i]
+		vc, okc := cold[i]
+		if okw != okc || vw != vc {
+			cacheMismatch++
+		}
+		if okw {
+			sp = append(sp, fmt.Sprintf("%d:%d", 100+i, vw))
+		}
+	}
 	// total over ALL client-state leaves of the trie (not just the id universe); unexpected leaf changes
 	lv, _ := x.w.Leaves()
 	tot := new(big.Int)
@@ -232,7 +347,7 @@ func (x *world) expectedPath(p string) bool {
 			return true
 		}
 	}
-	return false
+	return partPaths[p]
 }
 
 func impl(ops []string) []string {
@@ -362,10 +477,12 @@ func impl(ops []string) []string {
 	return outs
 }
 
-// tok parses an id token: "7" = canonical id, "7u" = the UPPER-CASE spelling of the same 64-hex id.
+// tok parses an id token: "7" = canonical id, "7u" = the UPPER-CASE spelling of the same 64-hex id, "7p" = only the
+// leading hex letter upper-cased (a spelling the trie resolves to the SAME leaf: children are addressed
+// case-insensitively, only the leaf's remaining path is compared byte-wise).
 func tok(w string) (int, bool) {
-	if strings.HasSuffix(w, "u") {
-		n, _ := strconv.Atoi(strings.TrimSuffix(w, "u"))
+	if strings.HasSuffix(w, "u") || strings.HasSuffix(w, "p") {
+		n, _ := strconv.Atoi(w[:len(w)-1])
 		return n, false
 	}
 	n, _ := strconv.Atoi(w)
@@ -377,7 +494,11 @@ func idStr(w string) string {
 	if canon {
 		return idOf(n)
 	}
-	return strings.ToUpper(idOf(n))
+	id := idOf(n)
+	if strings.HasSuffix(w, "p") && id[0] >= 'a' && id[0] <= 'f' {
+		return strings.ToUpper(id[:1]) + id[1:]
+	}
+	return strings.ToUpper(id) // (also for "p" when the first digit is not a letter: no same-leaf alias exists)
 }
 
 func idOf(i int) string {
@@ -410,6 +531,13 @@ func scriptJSON(res string) string {
 				k, _ := strconv.ParseUint(f[1], 10, 64)
 				v, _ := strconv.ParseUint(f[2], 10, 64)
 				in.Ops = append(in.Ops, scriptOp{K: "w", Key: keyName(k), Val: v})
+			case "pu":
+				k, _ := strconv.ParseUint(f[1], 10, 64)
+				v, _ := strconv.ParseUint(f[2], 10, 64)
+				in.Ops = append(in.Ops, scriptOp{K: "pu", Key: itemName(k), Val: v})
+			case "pr":
+				k, _ := strconv.ParseUint(f[1], 10, 64)
+				in.Ops = append(in.Ops, scriptOp{K: "pr", Key: itemName(k)})
 			case "d":
 				k, _ := strconv.ParseUint(f[1], 10, 64)
 				in.Ops = append(in.Ops, scriptOp{K: "d", Key: keyName(k)})
@@ -488,8 +616,11 @@ func genesisLine(r *rand.Rand) string {
 }
 
 func up(r *rand.Rand) string {
-	if r.Intn(16) == 0 {
+	switch r.Intn(24) {
+	case 0:
 		return "u"
+	case 1, 2:
+		return "p"
 	}
 	return ""
 }
@@ -568,11 +699,19 @@ func gen(prop string) func(r *rand.Rand, thorough bool, i int) []string {
 				var parts []string
 				m := r.Intn(5)
 				for j := 0; j < m; j++ {
-					switch r.Intn(6) {
+					switch r.Intn(8) {
 					case 0:
 						parts = append(parts, fmt.Sprintf("w,%d,%d", r.Intn(nKeys), r.Intn(1000)))
 					case 1:
 						parts = append(parts, fmt.Sprintf("d,%d", r.Intn(nKeys)))
+					case 6:
+						parts = append(parts, fmt.Sprintf("pu,%d,%d", r.Intn(nItems), r.Intn(1000)))
+					case 7:
+						if r.Intn(3) == 0 {
+							parts = append(parts, fmt.Sprintf("pr,%d", r.Intn(nItems)))
+						} else {
+							parts = append(parts, fmt.Sprintf("pu,%d,%d", r.Intn(nItems), r.Intn(1000)))
+						}
 					case 2:
 						parts = append(parts, fmt.Sprintf("s,%d,%d%s,%d", r.Intn(nIDs), r.Intn(nIDs+1), up(r), amount(r, 300)))
 					default:
@@ -589,8 +728,13 @@ func gen(prop string) func(r *rand.Rand, thorough bool, i int) []string {
 				}
 			}
 			toTok := strconv.Itoa(to)
-			if r.Intn(14) == 0 {
+			switch r.Intn(28) {
+			case 0, 1:
 				toTok += "u" // upper-case spelling of the recipient id
+			case 2, 3:
+				toTok += "p" // same-leaf spelling of the recipient id
+			case 4:
+				toTok = strconv.Itoa(sender) + "p" // same-leaf spelling of the sender's own id
 			}
 			ops = append(ops, fmt.Sprintf("txn %s %d %s %s %d %d %d %s", typ, sender, toTok, tv, value, feeV, nn, res))
 			// optimistic nonce tracking (a wrong guess only makes a later txn invalid, which is also a case we want)
